@@ -548,6 +548,15 @@ class SimulationBuilder:
             # Adjust previously computed ids and counts
             self.entity_ids[entity.plural] = entity_ids
             self.entity_counts[entity.plural] = len(entity_ids)
+            # The groups added for these persons hold default values
+            for variable_name, buffer in self.input_buffer.items():
+                if self.variable_entities.get(variable_name) is not entity:
+                    continue
+                variable = entity.get_variable(variable_name)
+                for period_str, array in buffer.items():
+                    padded = variable.default_array(len(entity_ids))
+                    padded[: len(array)] = array
+                    buffer[period_str] = padded
 
         # Convert back to Python array
         self.roles[entity.plural] = self.roles[entity.plural].tolist()
